@@ -27,6 +27,12 @@ in-memory node state (`C25.State`) right after the step that emitted it.  They f
 control flow as the C25 functions and use those for the state itself, so the C25 theorems apply
 unchanged to every state in a trace.
 
+Not modelled: the finaliser's own point writes (`finalizer.setFinalizedBlock` / `finalizer.reset`
+store `snowChoiceKey` with a plain `db.Set`) — no finaliser is configured in the node under test,
+none of these writes occurs in the logged runs, and `recover` restarts with the INITIAL finalised
+height `F` rather than a persisted one (with `F = 0` `resetFin` never fires); the sync/push/chunk
+point writes of other goroutines; concurrent `ProcessBlock` calls (deliveries are serialised).
+
 `crash n` is the disk after the first `n` writes; `recover` is the start-up logic
 (`LoadBlockStoreHeight`, `NewBlockStore`: last block by height; `InitIndexAndBestView`: headers
 by height for 0..last into index and best chain; orphan pool empty); a missing record is the
